@@ -30,6 +30,30 @@ EXTRA_PROGRAMS = [
     "from t | as {z = 1}",
     "from t | *",
     "from t | join side:{z = 1} u (==a)",
+    # replays of panics fixed since b55902d (they stay in the pool: a recurrence is a VIOLATION with that input)
+    # 7911778 lookup_cid `cannot find cid by id=.. and name=..` (C16-F3's program and variants)
+    "let tab = (from t | select {a} | join u (==a))\nfrom tab | filter id > 1",
+    "let tab = (from t | select {a} | append u)\nfrom tab | select {b}",
+    "let dup = rel -> (rel | append rel)\nfrom t | derive {x = a + 1} | dup",
+    # 287b286 relation literal: column without a name / cell that is not a literal
+    "from [{1, 2}]",
+    "from [{a = 1, 2}] | select {a}",
+    "from [{a = 1}, {a = b}]",
+    "from [{a = 1}, {a = 1 + 1}]",
+    "from [{a = 1, b = {c = 2}}]",
+    # 8204886 from_text with a header and zero rows, then a transform that needs the relation type
+    "from_text format:csv \"a,b\" | derive {c = a + 1}",
+    "from_text format:csv \"a,b\\n\" | join u (==a)",
+    "from_text format:json '{\"columns\": [\"a\"], \"data\": []}' | window rows:-1..1 (derive {s = sum a})",
+    "from_text format:csv \"\" | derive {c = 1}",
+    "from_text format:json '[]' | derive {c = 1}",
+    # 456bdcd F29 and neighbours: a sorted take in front of a split
+    "from t | sort {id, -b} | select {a} | take 3 | group {a} (aggregate {n = count this})",
+    "from t | sort id | select {a, b} | take 2..4 | aggregate {n = count b}",
+    "from t | sort id | derive {c = a + b} | select {c} | take 2 | join u (==c)",
+    # 7cb9d46 an error raised inside a std function body (span of std.prql)
+    "from t | derive {x = (math.round \"a\" b)} | select {y = (text.length 1 2)}",
+    "from t | window rolling:a (derive {s = sum b})",
 ]
 
 TOKEN_RE = re.compile(r"[A-Za-z_][A-Za-z_0-9]*|\d+(?:\.\d+)?|\s+|==|!=|>=|<=|~=|&&|\|\||\?\?|//|\*\*|->|=>|\.\.|.", re.S)
